@@ -347,7 +347,43 @@ func Delete() {
 		}
 	}
 	d := closeAndDecode(p, lg, want, p.l.Next, "after Delete+Close")
-	_ = d
+	// a rewritten segment keeps its version iff KeepRewriteVersion, else it is in NewSegmentsVersion
+	if !neg && len(deleted) > 0 {
+		var src *kit.Seg
+		for si := range p.l.Segs {
+			for _, r := range p.l.Segs[si].Recs {
+				if r.Off == deleted[0].Offset {
+					src = &p.l.Segs[si]
+				}
+			}
+		}
+		if src != nil && len(src.Recs) > len(deleted) {
+			// the survivors of the rewritten segment: find the decoded segment that holds the first of them
+			var first int64 = -1
+			for _, r := range src.Recs {
+				gone := false
+				for _, dm := range deleted {
+					if dm.Offset == r.Off {
+						gone = true
+					}
+				}
+				if !gone {
+					first = r.Off
+					break
+				}
+			}
+			for _, ds := range d.Segs {
+				if len(ds.Recs) > 0 && ds.Recs[0].Off == first {
+					vrt.Reach("rewritten-segment-version")
+					wantV1 := p.opts.Version.NewSegmentsVersion == klevdb.V1
+					if p.opts.Version.KeepRewriteVersion {
+						wantV1 = src.V1
+					}
+					vrt.Assert(ds.V1 == wantV1, "a rewritten segment keeps its version iff KeepRewriteVersion, otherwise it is written in NewSegmentsVersion")
+				}
+			}
+		}
+	}
 }
 
 // DeleteMulti over a set of live offsets (possibly spanning segments) removes all of them.
